@@ -90,7 +90,7 @@ fn judge_object(ctx: &Ctx, s: &RSchema, name: &str, v: &RVars, st: &mut Stats) {
 
 fn opt<T: ToString>(o: &Option<T>) -> String { o.as_ref().map(|x| x.to_string()).unwrap_or_default() }
 
-/// scalar variables equal the Zerv variables (on trimmed values; none/null/nil collapse is by design)
+/// scalar variables equal the Zerv variables (on trimmed values)
 fn judge_scalars(ctx: &Ctx, name: &str, v: &RVars, st: &mut Stats) {
     let s = RSchema { core: vec![RComp::Var(RVar::Major)], extra_core: vec![], build: vec![] };
     let Ok(z) = bind::zerv(&s, v) else { return };
@@ -112,10 +112,10 @@ fn judge_scalars(ctx: &Ctx, name: &str, v: &RVars, st: &mut Stats) {
             Err(p) => ctx.violation(&format!("panic@{}", p.file()), format!("{var} [{name}]"), case, p.message),
             Ok(Err(e)) => ctx.violation("scalar_template_failed", format!("{var} [{name}]"), case, e),
             Ok(Ok(got)) => {
+                // (the one-line result is trimmed; nothing else may happen to a value, whatever it spells)
                 let w = want.trim();
-                let collapsed = matches!(w.to_lowercase().as_str(), "none" | "null" | "nil");
-                if collapsed { st.inc("keyword_collapse_seen"); if !got.is_empty() && got != w { ctx.violation("scalar_mismatch", format!("{var} [{name}]"), case, format!("got {got:?} want {w:?} or empty")); } }
-                else if got != w { ctx.violation("scalar_mismatch", format!("{var} [{name}]"), case, format!("got {got:?} want {w:?}")); }
+                if matches!(w.to_lowercase().as_str(), "none" | "null" | "nil") { st.inc("keyword_valued_scalars"); }
+                if got != w { ctx.violation("scalar_mismatch", format!("{var} [{name}]"), case, format!("got {got:?} want {w:?}")); }
             }
         }
     }
@@ -123,7 +123,7 @@ fn judge_scalars(ctx: &Ctx, name: &str, v: &RVars, st: &mut Stats) {
 
 fn text_pool() -> Vec<String> {
     ["", "a", "main", "feature/x", "Feat/0042_x", "é", "€€€€", "日本語テキスト", "a€b", "0", "007", "1e5", "true", "none", "NULL", "nil", " padded ", "x y", "release/1.2.3-rc.1+b", "-", "..", "UPPER", "MiXeD-0010", "٣٣", "ſ", "\u{212A}", "İ",
-     "0123456789abcdef", "a-very-long-branch-name-exceeding-twenty-one-chars", "€", "ab€", "abc€", "🙂", "e\u{301}x", "tab\tin", "q\"uote", "back\\slash", "{{ x }}", "%Y", "0000", "0099999999999999999999", "x.00018446744073709551616-y", "00000000000000000000000000000000000001", "$_$1"]
+     "0123456789abcdef", "a-very-long-branch-name-exceeding-twenty-one-chars", "€", "ab€", "abc€", "🙂", "e\u{301}x", "tab\tin", "q\"uote", "back\\slash", "{{ x }}", "%Y", "0000", "0099999999999999999999", "x.00018446744073709551616-y", "00000000000000000000000000000000000001", "$_$1", "None", "Null", "NIL", "nilpotent", "nonexistent", "null/7", "none-of-the-above"]
         .iter().map(|s| s.to_string()).collect()
 }
 
@@ -169,6 +169,42 @@ fn judge_functions(ctx: &Ctx, text: &str, st: &mut Stats) {
         if let Some(o) = call(&format!("[{{{{ prefix_if(value=bumped_branch, prefix=\"{p}\") }}}}]"), "prefix_if", st) {
             let want = if text.is_empty() { String::new() } else { format!("{p}{text}") };
             if o != want { ctx.violation("prefix_if_contract", key("prefix_if"), case("prefix_if"), format!("prefix={p:?} -> {o:?} want {want:?}")); }
+        }
+    }
+    // the whole template is one expression, no surrounding text: the result is the value itself (trimmed), also when the
+    // value spells a keyword of some configuration language (none / null / nil / true / ~)
+    {
+        let take = |n: usize| -> String { text.chars().take(n).collect() };
+        let mut bare: Vec<(String, String)> = vec![("bumped_branch".into(), text.to_string()), ("prefix_if(value=bumped_branch, prefix=\"\")".into(), text.to_string()),
+            ("sanitize(value=bumped_branch, separator=\"-\")".into(), san::san(text, "-", false, false)), ("sanitize(value=bumped_branch, separator=\"-\", lowercase=true)".into(), san::san(text, "-", true, false))];
+        if text.is_ascii() { for n in [3usize, 4] { bare.push((format!("prefix(value=bumped_branch, length={n})"), take(n))); } }
+        for (expr, want) in bare {
+            st.inc("function_calls"); st.inc("bare_expression_calls");
+            match render(&z, &format!("{{{{ {expr} }}}}")) {
+                Err(p) => ctx.violation(&format!("panic@{}", p.file()), key(&expr), case(&expr), format!("{} at {}", p.message, p.location)),
+                Ok(Err(e)) => ctx.violation("function_failed", key(&expr), case(&expr), e),
+                Ok(Ok(o)) => if o != want.trim() { ctx.violation("bare_expression_differs_from_value", format!("{{{{ {expr} }}}} on {text:?}"), case("bare"), format!("printed {o:?}, the value is {:?}", want.trim())); },
+            }
+        }
+    }
+    // `length` / `max_length` written as something other than an integer literal (a fraction, a quotient, a negative number):
+    // the call is refused or the result still has at most that many characters - a limit is never silently replaced by the default
+    if ["a-very-long-branch-name-exceeding-twenty-one-chars", "main", "0123456789abcdef"].contains(&text) {
+        for spelling in ["4.0", "4.5", "0.0", "0.5", "2.999", "9 / 2", "distance / 5000", "7 / 7", "1.0 * 3", "-1", "0 - 3", "-0.5", "distance - 12345", "distance * 1.0 - 12344.5"] {
+            let limit: Option<f64> = match render(&z, &format!("{{{{ {spelling} }}}}")) { Ok(Ok(v)) => v.trim().parse::<f64>().ok(), _ => None };
+            let Some(limit) = limit else { st.inc("length_spellings_without_value"); continue };
+            for f in ["hash(value=bumped_branch, length=L)", "hash_int(value=bumped_branch, length=L)", "hash_int(value=bumped_branch, length=L, allow_leading_zero=true)", "prefix(value=bumped_branch, length=L)", "sanitize(value=bumped_branch, separator=\"-\", max_length=L)"] {
+                let expr = f.replace("=L", &format!("={spelling}"));
+                st.inc("function_calls"); st.inc("length_spelling_calls");
+                match render(&z, &format!("[{{{{ {expr} }}}}]")) {
+                    Err(p) => ctx.violation(&format!("panic@{}", p.file()), key(&expr), case(&expr), format!("{} at {}", p.message, p.location)),
+                    Ok(Err(_)) => st.inc("length_spelling_refused"),
+                    Ok(Ok(o)) => {
+                        let n = o.chars().count().saturating_sub(2) as f64;
+                        if limit < 0.0 || n > limit { ctx.violation("length_limit_ignored", format!("{expr} on {text:?}"), case("length_spelling"), format!("the limit evaluates to {limit}, the result {o:?} has {n} characters")); }
+                    }
+                }
+            }
         }
     }
     // numbers and booleans as values
